@@ -797,9 +797,16 @@ func (m *Manager) computeMedianFee() types.Currency {
 	return *m.txpool.medianFee
 }
 
-func (m *Manager) computeParentMap() map[types.Hash256]int {
+// computeParentMap maps the IDs of the elements created by pooled transactions
+// to the index of the creating transaction in txpool.txns (v2 == false) or
+// txpool.v2txns (v2 == true). The two slices have separate index spaces, and a
+// transaction can only spend unconfirmed outputs of its own version.
+func (m *Manager) computeParentMap(v2 bool) map[types.Hash256]int {
 	parentMap := make(map[types.Hash256]int)
 	for index, txn := range m.txpool.txns {
+		if v2 {
+			break
+		}
 		for i := range txn.SiacoinOutputs {
 			parentMap[types.Hash256(txn.SiacoinOutputID(i))] = index
 		}
@@ -814,6 +821,9 @@ func (m *Manager) computeParentMap() map[types.Hash256]int {
 		}
 	}
 	for index, txn := range m.txpool.v2txns {
+		if !v2 {
+			break
+		}
 		txid := txn.ID()
 		for i := range txn.SiacoinOutputs {
 			parentMap[types.Hash256(txn.SiacoinOutputID(txid, i))] = index
@@ -1147,7 +1157,7 @@ func (m *Manager) UnconfirmedParents(txn types.Transaction) []types.Transaction 
 	defer m.mu.Unlock()
 	m.revalidatePool()
 
-	parentMap := m.computeParentMap()
+	parentMap := m.computeParentMap(false)
 	var parents []types.Transaction
 	seen := make(map[int]bool)
 	check := func(id types.Hash256) {
@@ -1208,7 +1218,7 @@ func (m *Manager) V2TransactionSet(basis types.ChainIndex, txn types.V2Transacti
 	m.revalidatePool()
 
 	// get the transaction's parents
-	parentMap := m.computeParentMap()
+	parentMap := m.computeParentMap(true)
 	var parents []types.V2Transaction
 	seen := make(map[int]bool)
 	check := func(id types.Hash256) {
